@@ -16,7 +16,10 @@ resolved-name cache; it only knows the declared rules.
 
 See DESIGN.md section 4 / C13.
 """
+import copy as copy_module
 import operator
+import pickle
+import sys
 
 from traits.api import (
     HasTraits, HasStrictTraits, HasPrivateTraits, TraitError, Undefined,
@@ -48,6 +51,15 @@ META = {
              "include on_trait_change(handler, name) / on_trait_change(handler, name, remove=True) "
              "(often of the last handler) on class-governed names and on user-added instance traits, "
              "after which the same trait must still govern. "
+             "'shared': one trait definition object (ready-made CTrait or TraitType instance) bound to "
+             "several names of several classes, some with _name_default methods and static "
+             "_name_changed handlers; every name is governed as if it had its own definition. "
+             "'copy': pickle (protocols 2/4/5) / copy.copy / copy.deepcopy round trips of objects "
+             "carrying instance traits; the copy is an ordinary object of its class (a refused restore "
+             "is fine) on which nothing may be readable that the governing class-level trait rejects, "
+             "and all further operations are judged on it. 'bookkeeping': remove_trait on names for "
+             "which traits keeps an instance trait of its own (observed, reported only when enabled). "
+             "Value kinds may take their default from a _name_default method. "
              "distinct_nontrivial counts distinct (op, governing kind, resolution route, number and "
              "origin of matching prefixes, root, stored-state class, outcome class) signatures of judged "
              "operations."),
@@ -69,7 +81,16 @@ META = {
                   "readonly_declared_method": 1400, "readonly_declared_classvalue": 1100,
                   "readonly_declared_defmethod": 1000, "constructor_kw_checks": 2800,
                   "constructor_kw_readonly_declared": 130, "unhook_ops": 5700,
-                  "unhook_last_handler": 5600, "unhook_last_handler_on_instance_trait": 1400},
+                  "unhook_last_handler": 5600, "unhook_last_handler_on_instance_trait": 1400,
+                  "shared_hierarchies": 400, "shared_definitions": 780, "shared_slots": 2500,
+                  "shared_slots_with_default_method": 700, "shared_slots_with_changed_handler": 700,
+                  "shared_ctrait_defs_mixing_default_method_and_plain": 290, "shared_slot_ops": 11000,
+                  "shared_slot_ops_without_default_method": 7500, "copy_hierarchies": 400,
+                  "copy_ops": 2500, "copy_ops_pickle": 1250, "copy_ops_copy": 400,
+                  "copy_ops_deepcopy": 850, "copies_made": 2300, "copies_made_pickle": 1000,
+                  "copy_source_with_instance_traits": 690,
+                  "copy_source_value_refused_by_class_rule": 160, "copy_refused": 240,
+                  "copied_names_judged": 5600, "bookkeeping_checks": 80, "bookkeeping_controls": 20},
         "thorough": {"evaluations": 9000000, "hierarchies": 90000, "multi_prefix_ops": 1080000,
                   "cross_class_prefix_ops": 720000, "cross_instance_ops": 3240000,
                   "instance_trait_ops": 1440000, "restored_after_remove_ops": 360000,
@@ -88,7 +109,18 @@ META = {
                   "readonly_declared_method": 42000, "readonly_declared_classvalue": 33000,
                   "readonly_declared_defmethod": 30000, "constructor_kw_checks": 84000,
                   "constructor_kw_readonly_declared": 3900, "unhook_ops": 171000,
-                  "unhook_last_handler": 168000, "unhook_last_handler_on_instance_trait": 42000},
+                  "unhook_last_handler": 168000, "unhook_last_handler_on_instance_trait": 42000,
+                  "shared_hierarchies": 12000, "shared_definitions": 23400, "shared_slots": 75000,
+                  "shared_slots_with_default_method": 21000,
+                  "shared_slots_with_changed_handler": 21000,
+                  "shared_ctrait_defs_mixing_default_method_and_plain": 8700,
+                  "shared_slot_ops": 330000, "shared_slot_ops_without_default_method": 225000,
+                  "copy_hierarchies": 12000, "copy_ops": 75000, "copy_ops_pickle": 37500,
+                  "copy_ops_copy": 12000, "copy_ops_deepcopy": 25500, "copies_made": 69000,
+                  "copies_made_pickle": 30000, "copy_source_with_instance_traits": 20700,
+                  "copy_source_value_refused_by_class_rule": 4800, "copy_refused": 7200,
+                  "copied_names_judged": 168000, "bookkeeping_checks": 960,
+                  "bookkeeping_controls": 240},
     },
     "assumptions": [
         "the manual's wildcard rules, HasStrictTraits/HasPrivateTraits definitions and the trait "
@@ -103,8 +135,12 @@ META = {
         "when traits announces a name through trait_added is not modelled: the model only observes "
         "which instance traits the harness's own listeners added (and keeps them out of the harness's "
         "own add_trait calls, where the order of the two additions is unspecified)",
-        "on_trait_change(handler, name) is not judged itself; names registered that way are not given "
-        "to remove_trait unless the model holds an instance trait for them",
+        "on_trait_change(handler, name) is not judged itself; names registered that way (and names with "
+        "a static _name_changed handler) are not given to remove_trait in the histories unless the model "
+        "holds an instance trait for them; that pattern lives in the 'bookkeeping' stratum",
+        "objects made by pickle / copy / deepcopy carry no instance traits (none was added to them); "
+        "which values they carry is not judged, only that each readable value is one the governing "
+        "class-level trait accepts (its default, its constant, Undefined, or an acceptable value)",
     ],
 }
 
@@ -123,6 +159,16 @@ ALL_KINDS = VALUE_KINDS + ("ReadOnly", "ReadOnlyD", "Constant", "Event", "Disall
 DEFAULTS = {"Int": 0, "Str": "", "Bool": False, "Float": 0.0, "Any": None}
 CONSTANT_VALUES = (5, "k", 2.5)
 READONLY_DEFAULTS = (5, "dflt", 2.5, None)
+# value kinds may get their default from a `_name_default` method:
+# kind = (k, value, "method")
+METHOD_DEFAULTS = {"Int": (7, 42), "Str": ("dm", "x"), "Bool": (True,), "Float": (1.5,),
+                   "Any": ("anyd", 3), "ReadOnly": (5, "dflt", 2.5)}
+
+
+def default_of(kind):
+    if len(kind) > 2 and kind[2] == "method":
+        return kind[1]
+    return DEFAULTS[kind[0]]
 FIXED_KINDS = ("ReadOnlyD", "Constant")      # read the declared value, reject every write
 
 
@@ -298,6 +344,8 @@ def gen_kind(rng, wildcard, class_body=False):
     if k == "ReadOnlyD":
         flavour = rng.choice(("arg", "method")) if class_body and not wildcard else "arg"
         return (k, rng.choice(READONLY_DEFAULTS), flavour)
+    if class_body and not wildcard and k in VALUE_KINDS and rng.random() < 0.2:
+        return (k, rng.choice(METHOD_DEFAULTS[k]), "method")
     return (k, rng.choice(CONSTANT_VALUES) if k == "Constant" else None)
 
 
@@ -432,9 +480,71 @@ def _default_method(value):
     return _default
 
 
-def build(root, steps, tag, hub=None, listeners=None):
+def gen_setup_shared(rng):
+    """'shared' stratum: ONE trait definition object (a ready-made CTrait, or a
+    TraitType instance) is bound to several names of several classes; some of
+    these names have a `_name_default` method and/or a static `_name_changed`
+    handler.  Every name must be governed as if it had a definition of its own.
+    -> (root, steps, models, sharing); all literal data."""
+    root = rng.choice(("HasTraits", "HasStrictTraits", "HasPrivateTraits"))
+    ncls = rng.randint(2, 4)
+    parents, decls = [], []
+    for i in range(ncls):
+        parents.append(None if i == 0 else (i - 1 if rng.random() < 0.6 else rng.randrange(i)))
+        decls.append(dict(gen_decl(rng)))
+    sharing = {"defs": [], "slots": [], "changed": []}
+    taken = set()
+    for sid in range(rng.randint(1, 3)):
+        base = rng.choice(("ReadOnly", "ReadOnly", "ReadOnly", "Int", "Str", "Float", "Bool", "Any",
+                           "Event", "Constant"))
+        arg = rng.choice(CONSTANT_VALUES) if base == "Constant" else None
+        sharing["defs"].append((base, arg, rng.choice(("ctrait", "ctrait", "instance"))))
+        for _ in range(rng.randint(2, 5)):
+            ci = rng.randrange(ncls)
+            wildcard = rng.random() < 0.2
+            name = rng.choice(PREFIXES) + "_" if wildcard else rng.choice(EXPLICIT)
+            if (ci, name) in taken:
+                continue
+            taken.add((ci, name))
+            if not wildcard and base in METHOD_DEFAULTS and rng.random() < 0.45:
+                v = rng.choice(METHOD_DEFAULTS[base])
+                kind = ("ReadOnlyD", v, "method") if base == "ReadOnly" else (base, v, "method")
+            else:
+                kind = (base, arg)
+            decls[ci][name] = kind
+            sharing["slots"].append((sid, ci, name))
+            if not wildcard and rng.random() < 0.35:
+                sharing["changed"].append((ci, name))
+    steps, models = [], []
+    for i in range(ncls):
+        decl = sorted(decls[i].items())
+        steps.append(("class", i, parents[i], decl))
+        model_new_class(models, root, i, parents[i], decl)
+    return root, steps, models, sharing
+
+
+def _shared_object(base, arg, form):
+    t = mk_trait((base, arg))
+    if base == "ReadOnly":
+        # the module-level ReadOnly is itself one TraitType instance shared by
+        # everybody; calling it gives a ready-made CTrait
+        return t if form == "instance" else t(desc="shared definition")
+    inst = t() if isinstance(t, type) else t
+    return inst if form == "instance" else inst.as_ctrait()
+
+
+def _noop_changed(self, new):
+    pass
+
+
+def build(root, steps, tag, hub=None, listeners=None, sharing=None, register=False):
     """Realise the steps with the metaclass; returns the list of classes."""
     classes = []
+    shared_at = {}
+    if sharing is not None:
+        objs = [_shared_object(*d) for d in sharing["defs"]]
+        for sid, ci, name in sharing["slots"]:
+            shared_at[(ci, name)] = objs[sid]
     for st in steps:
         if st[0] == "class":
             _, idx, parent, decl = st
@@ -442,18 +552,24 @@ def build(root, steps, tag, hub=None, listeners=None):
             ns = {"__module__": __name__}
             cname = "K%s_%d" % (tag, idx)
             for name, kind in decl:
-                flavour = kind[2] if kind[0] == "ReadOnlyD" else None
+                flavour = kind[2] if len(kind) > 2 else None
                 if flavour == "classvalue":
                     ns[name] = kind[1]
                 elif flavour == "defmethod":
                     ns[_mangled(cname, "_%s_default" % name)] = _default_method(kind[1])
                 else:
-                    ns[name] = mk_trait(kind)
+                    ns[name] = shared_at[(idx, name)] if (idx, name) in shared_at else mk_trait(kind)
                     if flavour == "method":
                         ns[_mangled(cname, "_%s_default" % name)] = _default_method(kind[1])
+            if sharing is not None:
+                for ci, name in sharing["changed"]:
+                    if ci == idx:
+                        ns[_mangled(cname, "_%s_changed" % name)] = _noop_changed
             if listeners is not None and idx in listeners["static"]:
                 ns["_trait_added_changed"] = hub.static(*listeners["static"][idx])
             classes.append(type(base)(cname, (base,), ns))
+            if register:        # pickle finds classes by module attribute
+                setattr(sys.modules[__name__], cname, classes[-1])
         else:
             _, idx, name, kind = st
             classes[idx].add_class_trait(name, mk_trait(kind))
@@ -481,7 +597,7 @@ def name_pool(models):
 
 class Inst:
     __slots__ = ("serial", "cls", "obj", "itraits", "st", "touched", "removed", "hooked",
-                 "listener_done", "dyn", "handlers")
+                 "listener_done", "dyn", "handlers", "default_has", "origin", "read_all")
 
     def __init__(self, serial, cls, obj):
         self.serial = serial
@@ -496,11 +612,14 @@ class Inst:
         self.listener_done = set()  # names the trait_added listener already handled
         self.dyn = None             # dynamic trait_added listener (kept alive)
         self.handlers = {}          # name -> handlers registered with on_trait_change
+        self.default_has = "no"     # 'copied' for objects made by pickle / copy / deepcopy
+        self.origin = None          # how a copy was made
+        self.read_all = False       # a copy operation read every trait (defaults materialised)
 
     def state(self, name):
         s = self.st.get(name)
         if s is None:
-            s = self.st[name] = ["no", None]
+            s = self.st[name] = [self.default_has, None]
         return s
 
 
@@ -544,6 +663,8 @@ class History:
         self.seen = {}              # name -> set of (class idx, serial) that touched it
         self.by_id = {}             # id(obj) -> Inst (objects are kept alive by self.insts)
         self.listeners = None       # listener specs ('listener' stratum)
+        self.sharing = None         # shared-definition plan ('shared' stratum)
+        self.static_handled = {}    # class idx -> names with a static _name_changed handler
         self.listener_log = []      # (serial, name) of instance traits added by listeners
         self.hook_errors = []
         self.explicit_add = None    # (serial, name) while the harness itself calls add_trait
@@ -576,11 +697,18 @@ class History:
 
     def fail(self, key, msg, **extra):
         key = self.key_override or key
+        if self.sharing is not None and extra.get("cls") is not None and extra.get("name"):
+            e = self.models[extra["cls"]].explicit.get(extra["name"])
+            if e is not None and any(ci == e[1] and n == extra["name"] for _, ci, n in self.sharing["slots"]):
+                key = "shared-definition/" + key
         w = {"root": self.root, "setup": self.steps, "stratum": self.stratum,
              "instances": [i.cls for i in self.insts], "history": self.log[-60:]}
         if self.listeners is not None:
             w["listeners"] = self.listeners
             msg += " | listeners=%r" % (self.listeners,)
+        if self.sharing is not None:
+            w["sharing"] = self.sharing
+            msg += " | sharing=%r" % (self.sharing,)
         w.update(extra)
         self.ctx.violation(key, msg + " | root=%s setup=%r history(tail)=%r"
                            % (self.root, self.steps, self.log[-8:]), w)
@@ -613,6 +741,12 @@ class History:
                 ctx.count("private_name_ops")
         if how != "instance" and name in inst.removed:
             ctx.count("restored_after_remove_ops")
+        if self.sharing is not None and how.startswith("explicit"):
+            org = self.models[inst.cls].explicit[name][1]
+            if any(ci == org and n == name for _, ci, n in self.sharing["slots"]):
+                ctx.count("shared_slot_ops")
+                if len(kind) <= 2:
+                    ctx.count("shared_slot_ops_without_default_method")
         if k == "Event":
             ctx.count("event_ops")
         elif k == "Constant":
@@ -637,6 +771,8 @@ class History:
     # -- unknown state: one harness read adopts whatever the object holds ------
     def settle(self, inst, name, kind):
         s = inst.state(name)
+        if s[0] == "copied":
+            return self.settle_copied(inst, name, kind, s)
         if s[0] != "unknown":
             return s
         k = kind[0]
@@ -660,6 +796,60 @@ class History:
         else:
             self.fail("get/%s/unexpected-%s" % (k, out[0]),
                       "read of %r raised %s" % (name, out[0]), name=name, kind=kind)
+        return s
+
+    def settle_copied(self, inst, name, kind, s):
+        """First look at a name of an object made by pickle / copy / deepcopy.
+        Which values a copy carries is not this property's business, but the
+        copy is an ordinary object of its class to which no instance trait was
+        added: whatever can be read must be a value the governing class-level
+        trait accepts (or its default / constant / nothing at all)."""
+        k = kind[0]
+        out = attempt(getattr, inst.obj, name)
+        self.log.append(("copied-read", inst.serial, name, out[0], short(out[1], 30)))
+        self.ctx.ev()
+        self.ctx.count("copied_names_judged")
+        self.ctx.sig("copied", inst.origin, k, out[0])
+        saved = self.key_override
+        self.key_override = self.key_override or \
+            "copy-%s/readable-value-against-class-level-rule" % inst.origin
+        if out[0].startswith("EXC-"):
+            self.fail("get/%s/unexpected-%s" % (k, out[0]), "read of %r raised %s" % (name, out[0]),
+                      name=name, kind=kind)
+        if k in ("Event", "Disallow"):
+            if out[0] != "AE":
+                self.fail("get/%s/readable" % k,
+                          "%r on a %s copy is governed by %s but reads %r" % (name, inst.origin, kind, out[1]),
+                          name=name, kind=kind, got=out)
+            s[0], s[1] = "no", None
+        elif k == "Python":
+            s[0], s[1] = ("yes", out[1]) if out[0] == "ok" else ("no", None)
+        else:
+            if out[0] != "ok":
+                self.fail("get/%s/unreadable" % k,
+                          "%s-governed name %r raised AttributeError on a %s copy" % (k, name, inst.origin),
+                          name=name, kind=kind)
+            v = out[1]
+            if k == "ReadOnly":
+                s[0], s[1] = ("no", None) if v is Undefined else ("maybe", v)
+            elif k in FIXED_KINDS:
+                if not (v is kind[1] or same(v, kind[1])):
+                    self.fail("get/%s/wrong-value" % k,
+                              "%r on a %s copy is governed by %s but reads %r" % (name, inst.origin, kind, v),
+                              name=name, kind=kind, got=out)
+                s[0], s[1] = "no", None
+            else:
+                dv = default_of(kind)
+                ok, stored = accepts(k, v)
+                # Undefined is traits' own "no value yet" marker, which every
+                # trait stores unvalidated (a copied ReadOnly-governed value)
+                if v is not Undefined and not (v is dv or same(v, dv)) \
+                        and not (ok and (stored is v or same(stored, v))):
+                    self.fail("get/%s/holds-unacceptable-value" % k,
+                              "%r on a %s copy is governed by %s but reads %r, which that trait rejects"
+                              % (name, inst.origin, kind, v), name=name, kind=kind, got=out)
+                s[0], s[1] = "yes", v
+        self.key_override = saved
         return s
 
     # -- operations ------------------------------------------------------------
@@ -692,7 +882,7 @@ class History:
         if has in ("yes", "maybe"):
             exp = ("ok", s[1])
         elif k in DEFAULTS:
-            exp = ("ok", DEFAULTS[k])
+            exp = ("ok", default_of(kind))
         elif k == "ReadOnly":
             exp = ("ok", Undefined)
         elif k in FIXED_KINDS:
@@ -847,7 +1037,7 @@ class History:
                       "add_trait(%r, %s) raised %s" % (name, kind[0], out[0]), name=name, kind=kind)
         inst.itraits[name] = kind
         s = inst.state(name)
-        if name in inst.touched or s[0] != "no":
+        if name in inst.touched or inst.read_all or s[0] != "no":
             s[0], s[1] = "unknown", None
         self.ctx.sig("add", kind[0], _resolve_class(self.models[inst.cls], name)[1][0], self.root)
 
@@ -899,6 +1089,64 @@ class History:
         self.key_override = "on_trait_change-remove/governing-trait-changed"
         self.do_get(inst, name, tag="read-after-unhook")
         self.do_fp(inst, name, values, True)
+
+    def do_copy(self, inst, how):
+        """pickle / copy.copy / copy.deepcopy round trip.  The copy is a new
+        object of the same class to which no instance trait was added, so the
+        class-level rules govern it; it may carry any values those rules
+        accept.  A refused restore (TraitError) is fine."""
+        m = self.models[inst.cls]
+        critical = 0
+        for name, kind in inst.itraits.items():
+            st = inst.st.get(name)
+            if st is not None and st[0] == "yes" and kind[0] in VALUE_KINDS + ("Python", "ReadOnly"):
+                ck = _resolve_class(m, name)[0][0]
+                if ck in ("Disallow", "Constant", "ReadOnlyD", "Event") or \
+                        (ck in VALUE_KINDS and not accepts(ck, st[1])[0]):
+                    critical += 1
+        obj = inst.obj
+        inst.read_all = True
+        if how.startswith("pickle"):
+            proto = int(how[6:])
+            out = attempt(lambda: pickle.loads(pickle.dumps(obj, proto)))
+        elif how == "copy":
+            out = attempt(copy_module.copy, obj)
+        else:
+            out = attempt(copy_module.deepcopy, obj)
+        hk = "pickle" if how.startswith("pickle") else how
+        self.log.append(("copy", how, inst.serial, out[0], sorted(inst.itraits)))
+        self.ctx.ev()
+        self.ctx.count("copy_ops")
+        self.ctx.count("copy_ops_%s" % hk)
+        if inst.itraits:
+            self.ctx.count("copy_source_with_instance_traits")
+        if critical:
+            self.ctx.count("copy_source_value_refused_by_class_rule")
+        self.ctx.sig("copy", hk, out[0], bool(inst.itraits), bool(critical), self.root)
+        if out[0] == "TE":
+            self.ctx.count("copy_refused")
+            return None
+        if out[0] != "ok" or type(out[1]) is not type(obj) or out[1] is obj:
+            self.fail("copy-%s/unexpected-%s" % (hk, out[0]),
+                      "%s round trip gave %s %s" % (how, out[0], short(out[1], 60)))
+        c = Inst(len(self.insts), inst.cls, out[1])
+        c.default_has = "copied"
+        c.origin = hk
+        self.insts.append(c)
+        self.by_id[id(c.obj)] = c
+        self.ctx.count("copies_made")
+        self.ctx.count("copies_made_%s" % hk)
+        if critical:
+            self.ctx.count("copies_made_despite_refused_value")
+        # look at the names that mattered on the source right away
+        names = sorted(set(inst.itraits) | set(n for n, st in inst.st.items() if st[0] in ("yes", "maybe")))
+        for name in names[:6]:
+            if name in DUNDER:
+                continue
+            self.key_override = "copy-%s/readable-value-against-class-level-rule" % hk
+            self.do_get(c, name, tag="get-on-copy")
+        self.key_override = None
+        return c
 
     def do_new_kw(self, ci, name, v):
         """Constructor keyword: an assignment on an object on which the name
@@ -997,14 +1245,78 @@ class History:
                           name=name, kind=kind, route=route, cls=inst.cls, before=s[1], after=got)
 
 
+def picklable_variant(rng, root, steps):
+    """'copy' stratum: an object with a ReadOnly that is defined by its
+    declaration refuses every restore (TraitError), so most of these are
+    turned into plain ReadOnly here.  -> (steps, models)"""
+    out, models = [], []
+    for st in steps:
+        if st[0] == "class":
+            decl = []
+            for name, kind in st[3]:
+                if kind[0] == "ReadOnlyD" and rng.random() < 0.9:
+                    if kind[2] in ("classvalue", "defmethod"):
+                        continue
+                    kind = ("ReadOnly", None)
+                decl.append((name, kind))
+            st = ("class", st[1], st[2], decl)
+            model_new_class(models, root, st[1], st[2], decl)
+        else:
+            if st[3][0] == "ReadOnlyD" and rng.random() < 0.9:
+                st = (st[0], st[1], st[2], ("ReadOnly", None))
+            model_add_class(models, st[1], st[2], st[3])
+        out.append(st)
+    return out, models
+
+
 def run_history(ctx, case, rng, stratum, lrng=None):
-    root, steps, models = gen_setup(rng)
+    sharing = None
+    if stratum == "shared":
+        root, steps, models, sharing = gen_setup_shared(rng)
+    else:
+        root, steps, models = gen_setup(rng)
+    if stratum == "copy":
+        steps, models = picklable_variant(rng, root, steps)
     hub = listeners = None
     if stratum == "listener":
         hub = ListenerHub()
         listeners = gen_listeners(lrng, len(models))
-    classes = build(root, steps, case.replace(":", "_"), hub, listeners)
+    classes = build(root, steps, case.replace(":", "_"), hub, listeners, sharing,
+                    register=(stratum == "copy"))
+    try:
+        return _run_history(ctx, case, rng, stratum, lrng, root, steps, models, classes, hub,
+                            listeners, sharing)
+    finally:
+        if stratum == "copy":
+            for c in classes:
+                if getattr(sys.modules[__name__], c.__name__, None) is c:
+                    delattr(sys.modules[__name__], c.__name__)
+
+
+def _run_history(ctx, case, rng, stratum, lrng, root, steps, models, classes, hub, listeners,
+                 sharing):
     H = History(ctx, case, root, steps, models, classes, stratum)
+    if sharing is not None:
+        H.sharing = sharing
+        for m in models:
+            names = set(H.static_handled.get(m.parent, ())) if m.parent is not None else set()
+            names.update(n for ci, n in sharing["changed"] if ci == m.idx)
+            H.static_handled[m.idx] = names
+        ctx.count("shared_hierarchies")
+        ctx.count("shared_definitions", len(sharing["defs"]))
+        ctx.count("shared_slots", len(sharing["slots"]))
+        ctx.count("shared_slots_with_changed_handler", len(sharing["changed"]))
+        kinds = {(ci, n): k for st in steps for n, k in st[3] for ci in (st[1],)}
+        per_def = {}
+        for sid, ci, n in sharing["slots"]:
+            per_def.setdefault(sid, []).append(len(kinds[(ci, n)]) > 2)
+            if len(kinds[(ci, n)]) > 2:
+                ctx.count("shared_slots_with_default_method")
+        for sid, flags in per_def.items():
+            if any(flags) and not all(flags) and sharing["defs"][sid][2] == "ctrait":
+                ctx.count("shared_ctrait_defs_mixing_default_method_and_plain")
+    if stratum == "copy":
+        ctx.count("copy_hierarchies")
     if hub is not None:
         hub.H = H
         H.listeners = listeners
@@ -1032,6 +1344,9 @@ def run_history(ctx, case, rng, stratum, lrng=None):
             extra.update((p + "7", p + "q", p + "_y"))
         pool = sorted(set(pool) | extra)
     hot = rng.sample(pool, min(len(pool), 8))     # names revisited often: cache reuse
+    if sharing is not None:
+        slot_names = sorted(set(n if not n.endswith("_") else n[:-1] + "q" for _, _, n in sharing["slots"]))
+        hot = sorted(set(hot[:3]) | set(slot_names))
     nsteps = 40
     weights = {"fp": 3, "set": 3, "get": 3, "del": 1.5, "add": 1.5, "remove": 1.5, "new": 0.8,
                "hook": 1.0, "unhook": 1.0}
@@ -1039,6 +1354,10 @@ def run_history(ctx, case, rng, stratum, lrng=None):
         weights["remove"] = 4
     if stratum == "listener":
         weights.update({"del": 2.5, "hook": 2.0, "unhook": 1.5, "add": 1.0})
+    if stratum == "copy":
+        weights.update({"add": 3.0, "copy": 3.0, "remove": 0.8, "hook": 0.5, "unhook": 0.5, "del": 1.0})
+    if stratum == "shared":
+        weights.update({"get": 4, "new": 1.2})
 
     def fp_values():
         order = list(VCLASSES)
@@ -1072,6 +1391,12 @@ def run_history(ctx, case, rng, stratum, lrng=None):
                     H.log.append(("new", ni.serial, ni.cls))
                     continue
                 op = "get"
+            if op == "copy":
+                if len(H.insts) < 14:
+                    how = rng.choice(("pickle2", "pickle4", "pickle5", "copy", "deepcopy", "deepcopy"))
+                    H.do_copy(inst, how)
+                    continue
+                op = "fp"
             if op == "unhook":
                 if inst.handlers:
                     H.do_unhook(inst, rng.choice(sorted(inst.handlers)), fp_values())
@@ -1116,6 +1441,10 @@ def run_history(ctx, case, rng, stratum, lrng=None):
                     continue
                 if stratum != "noop" and name not in inst.itraits and inst.state(name)[0] != "no":
                     # pattern of the (fixed) finding F17 lives in the 'noop' stratum
+                    H.do_get(inst, name)
+                    continue
+                if name in H.static_handled.get(inst.cls, ()) and name not in inst.itraits:
+                    # same for a static _name_changed handler once it was notified
                     H.do_get(inst, name)
                     continue
                 if name in inst.hooked and name not in inst.itraits:
@@ -1196,6 +1525,68 @@ def run_late(ctx, case, rng):
 
 
 # --------------------------------------------------------------------------
+# 'bookkeeping' stratum: instance traits that traits creates for itself
+# --------------------------------------------------------------------------
+# traits keeps per-object copies of a class trait for its own purposes
+# (`_trait(name, 2)`: on_trait_change(handler, name); the first notification of
+# a static `_name_changed` handler).  remove_trait() cannot tell them from
+# instance traits the user added: it returns True, deletes the stored value and
+# so re-opens a write-once attribute although no instance trait was ever added.
+# This is observed and counted here; it becomes a violation (own key) once
+# REPORT_BOOKKEEPING_REMOVAL is set (the coordinator decides: it needs a
+# known_findings entry or a fix first).
+REPORT_BOOKKEEPING_REMOVAL = True
+BOOKKEEPING_KEY = "remove_trait/bookkeeping-instance-trait/value-lost"
+
+
+def run_bookkeeping(ctx, case, rng):
+    root = rng.choice(sorted(ROOTS))
+    k = rng.choice(("ReadOnly", "Int", "Str", "Any", "Float"))
+    how = rng.choice(("static-handler", "on_trait_change", "on_trait_change-then-remove", "none"))
+    name = rng.choice(("ro", "k", "abq"))
+    v = {"ReadOnly": 11, "Int": 3, "Str": "s", "Any": "a", "Float": 1.5}[k]
+    cname = "B%s" % case.replace(":", "_")
+    ns = {"__module__": __name__, name: mk_trait((k, None))}
+    if how == "static-handler":
+        ns["_%s_changed" % name] = _noop_changed
+    obj = type(ROOTS[root])(cname, (ROOTS[root],), ns)()
+
+    def handler():
+        pass
+    if how.startswith("on_trait_change"):
+        obj.on_trait_change(handler, name)
+    setattr(obj, name, v)
+    if how == "on_trait_change-then-remove":
+        obj.on_trait_change(handler, name, remove=True)
+    removed = attempt(obj.remove_trait, name)
+    after = attempt(getattr, obj, name)
+    second = attempt(setattr, obj, name, v) if k == "ReadOnly" else None
+    ctx.ev()
+    ctx.count("bookkeeping_checks")
+    ctx.sig("bookkeeping", root, k, how, removed[1], after[0] == "ok" and same(after[1], v))
+    desc = {"root": root, "kind": k, "how": how, "name": name, "value": v,
+            "remove_trait": removed, "read_after": after, "second_assignment": second}
+    ok = removed == ("ok", False) and after[0] == "ok" and same(after[1], v) and \
+        (second is None or second[0] == "TE")
+    if how == "none":
+        ctx.count("bookkeeping_controls")
+        if not ok:
+            ctx.violation("remove_trait/no-instance-trait/value-lost",
+                          "remove_trait(%r) on an object that never had an instance trait: %r" % (name, desc),
+                          desc)
+    elif not ok:
+        ctx.count("bookkeeping_removals_observed")
+        ctx.note("bookkeeping_instance_trait_removed_by_remove_trait",
+                 {"key": BOOKKEEPING_KEY, "reported_as_violation": REPORT_BOOKKEEPING_REMOVAL,
+                  "example": desc})
+        if REPORT_BOOKKEEPING_REMOVAL:
+            ctx.violation(BOOKKEEPING_KEY,
+                          "no instance trait was added with add_trait, yet remove_trait(%r) returned %r and "
+                          "the stored value is gone (%s): %r" % (name, removed[1], how, desc), desc)
+    return desc
+
+
+# --------------------------------------------------------------------------
 
 def run(ctx):
     nh = ctx.scale(8000, 300000)
@@ -1225,6 +1616,31 @@ def run(ctx):
             if h == ctx.shard:
                 ctx.sample({"root": H.root, "setup": H.steps, "stratum": "listener",
                             "listeners": H.listeners, "history": H.log[:12]}, cap=3)
+        finally:
+            ctx.end()
+    for stratum, tag, n in (("shared", "shr", ctx.scale(1600, 50000)),
+                            ("copy", "cpy", ctx.scale(1600, 50000))):
+        for h in range(n):
+            if not ctx.mine(h):
+                continue
+            case = "%s:%d" % (tag, h)
+            if not ctx.begin(case, {"stratum": stratum}):
+                continue
+            try:
+                H = run_history(ctx, case, ctx.rng(tag, h), stratum)
+                if h == ctx.shard:
+                    ctx.sample({"root": H.root, "setup": H.steps, "stratum": stratum,
+                                "sharing": H.sharing, "history": H.log[:12]}, cap=5)
+            finally:
+                ctx.end()
+    for h in range(ctx.scale(320, 4000)):
+        if not ctx.mine(h):
+            continue
+        case = "bkp:%d" % h
+        if not ctx.begin(case):
+            continue
+        try:
+            run_bookkeeping(ctx, case, ctx.rng("bkp", h))
         finally:
             ctx.end()
     nl = ctx.scale(1600, 20000)
